@@ -68,7 +68,7 @@ fn small_key() -> BoxedStrategy<Vec<u8>> {
 
 fn strategy(_t: Tier) -> BoxedStrategy<Case> {
     let info_part = (
-        prop_oneof![Just(b"NAME".to_vec()), bytes_strategy(10).prop_filter("utf8", |b| String::from_utf8(b.clone()).is_ok())],
+        prop_oneof![Just(b"NAME".to_vec()), "[ -~]{0,10}".prop_map(|s| s.into_bytes()), "[:eild0-9-]{1,8}".prop_map(|s| s.into_bytes()), Just("ünï".as_bytes().to_vec())],
         prop_oneof![1i64..100000, Just(16384i64), Just(262144)],
         (0usize..4).prop_flat_map(|n| vec(any::<u8>(), n * 20..=n * 20)),
         prop_oneof![(0i64..1_000_000).prop_map(Some), Just(None)],
